@@ -513,3 +513,33 @@ with digest_kids (c : cfg) (o : oracle) (s : state) (ks : kidlist) (acc : option
 Definition case_digest (a0 : A) (x : cfg * oracle * list (list op) * trie) : option A :=
   let '(c, o, scripts, t) := x in digest_trie c o (init scripts) t (Some a0).
 End Digest.
+
+(* ------------------------------------------------------------------------------------------
+   Server side of one session: supp/server.py __main__ (113-116: ONE listener.accept(), then
+   Server.run) and Server.run (71-95): every received message is either an ordinary request
+   (answered, loop continues), the close request (conn.close(); break), end of file on the
+   connection - the client end was closed or the client process died - (break), or undecodable
+   bytes (logged; break).  After the loop the process ends; it never goes back to accept(). *)
+Inductive srv_event := EvRequest | EvClose | EvEof | EvGarbage.
+
+Inductive srv_state :=
+| SrvServing (answered : nat)     (* inside the loop of Server.run *)
+| SrvExited (answered : nat).     (* the process has ended *)
+
+Definition srv_step (st : srv_state) (e : srv_event) : srv_state :=
+  match st with
+  | SrvServing n => match e with EvRequest => SrvServing (S n) | _ => SrvExited n end
+  | SrvExited n => SrvExited n
+  end.
+
+(* the connection has been accepted (exactly once); then the events arrive in order *)
+Definition srv_run (evs : list srv_event) : srv_state := fold_left srv_step evs (SrvServing 0).
+
+Definition srv_exited (st : srv_state) : bool := match st with SrvExited _ => true | _ => false end.
+Definition srv_answered (st : srv_state) : nat := match st with SrvServing n | SrvExited n => n end.
+
+(* a real-subprocess observation: events sent, did the process exit, replies received *)
+Definition check_server_case (x : list srv_event * bool * nat) : bool :=
+  let '(evs, exited, replies) := x in
+  Bool.eqb (srv_exited (srv_run evs)) exited && Nat.eqb (srv_answered (srv_run evs)) replies.
+
